@@ -77,6 +77,13 @@ func doAclCheck(method string, path string, token *jwt.Token, core *security.Ser
 		action = "read"
 	}
 
+	// an explicit deny is never overridden by an allow, whatever the order of the entries
+	for _, ac := range acl {
+		if core.CheckDenied(ac, path, action) {
+			return echo.NewHTTPError(http.StatusForbidden, "user does not have permission")
+		}
+	}
+
 	for _, ac := range acl {
 		if core.CheckGranted(ac, path, action) {
 			return nil
